@@ -631,6 +631,10 @@ where
         rp_id: Option<&'a str>,
     ) -> Result<&'a str, WebauthnError> {
         let host = target_link.host();
+        // The asset link host stands in for the origin's host: like it, it must be a domain name.
+        if !matches!(url::Host::parse(host), Ok(url::Host::Domain(_))) {
+            return Err(WebauthnError::OriginMissingDomain);
+        }
         let mut effective_rp_id = host;
 
         if let Some(rp_id) = rp_id {
